@@ -45,11 +45,13 @@ def gen_world(rng):
     wm = world.gen_world_model(rng, use_cache=rng.choice([True, None]), nfiles=rng.randrange(1, 4),
                                sizes=["tiny", "tiny", "tiny", "k8"], p_have=0.45, max_stmts=3, min_missing=1,
                                lock=rng.choice(["absent", "ahead", "ahead"]),
-                               many_files=rng.choice([40, 130, 260]) if rng.random() < 0.01 else None)
+                               many_files=rng.choice([40, 40, 130, 260]) if rng.random() < 0.015 else None)
     if rng.random() < 0.08:
         # the top of the ID range: the lock is within reach of 2^32-1
         wm["lock"] = core.lock_text(U32 - rng.randrange(0, 4))
     knobs = {"threads": rng.randrange(1, 5), "config_arg": rng.choice(["rel", "abs"])}
+    if len(wm["files"]) > 30 and rng.random() < 0.7:
+        knobs["nofile"] = 16      # see scen.env_knobs
     return wm, knobs
 
 
